@@ -4,6 +4,7 @@ package benchfmt
 
 import (
 	"bytes"
+	"math"
 )
 
 var h01Keys = []string{"a", "b", "c"}
@@ -25,12 +26,15 @@ func h01Values(which int) []Value {
 	// values built through the API (not obtained from the parser under test): full-precision
 	// floats whose shortest decimal has 16-17 digits, plain and rescaled
 	vals = append(vals, Value{Value: 15.832827774512765, Unit: "w"})
+	vals = append(vals, Value{Value: math.Inf(-1), Unit: "v"}, Value{Value: math.Copysign(0, -1), Unit: "vv"})
 	ov := []float64{94.17601719804103, 940497473450.9459, 0.30000000000000004}[which%3]
 	vals = append(vals, Value{Value: ov * 1e-9, Unit: "sec/w", OrigValue: ov, OrigUnit: "ns/w"})
 	return vals
 }
 
-func h01SameFloat(a, b float64) bool { return a == b || (a != a && b != b) }
+func h01SameFloat(a, b float64) bool {
+	return (a == b && math.Signbit(a) == math.Signbit(b)) || (a != a && b != b)
+}
 
 // h01Written returns the value/unit pair as it was written.
 func h01Written(v Value) (float64, string) {
